@@ -926,7 +926,7 @@ class Interp:
                 return getattr(o, name)
             except AttributeError as e:
                 raise PyRaise("AttributeError", str(e))
-        if type(o).__name__ in ("SpVal", "SpBool"):
+        if type(o).__name__ in ("SpVal", "SpBool") or type(o).__module__.startswith("scipy.stats"):
             try:
                 return getattr(o, name)
             except AttributeError as e:
